@@ -105,11 +105,13 @@ def attrsShape (ty : String) : Option Json → Bool
       ((ty == "link" || ty == "image") && (p.1 == "url" || p.1 == "title")) || (ty == "block_code" && p.1 == "info"))
   | _ => true
 
-/-- the token types the plugin-free parser produces -/
+/-- the token types the covered handlers produce (core, and the inline plugins formatting / url / math / speedup) -/
 def coreTys : List String :=
   ["paragraph", "block_text", "heading", "block_code", "block_html", "thematic_break", "blank_line", "block_quote",
    "list", "list_item", "text", "codespan", "inline_html", "emphasis", "strong", "link", "image", "linebreak",
-   "softbreak", "footnote_ref"]
+   "softbreak", "footnote_ref",
+   -- plugins formatting, math (inline): containers / a raw leaf without `attrs`
+   "strikethrough", "mark", "insert", "superscript", "subscript", "inline_math", "block_math", "block_spoiler", "inline_spoiler"]
 
 /-- every token of the tree has a core type and `attrs` of the shape `attrsShape`; fuel bounds the depth -/
 def shp : Nat → Json → Bool
